@@ -279,6 +279,9 @@ def stages(tier):
     if not quick:
         for v in range(1, 20):
             st_.append(Stage(f"tls-sweep-v{v}", evaluate_tls, specs=tls_sweep(v)))
+    # keys of a resumed session: same master secret, own randoms - judged through the plaintext both connections export (C01's stage)
+    from checks import c01
+    st_.append(Stage("resumed-session-pairs", c01.evaluate_resumed, specs=c01.resumed_specs()))
     st_.append(Stage("quic-histories", evaluate_quic, strategy=lambda t: strategies.single_quic_scenario(max_steps=14, dups=False), examples=600 if quick else 12000))
     st_.append(Stage("functions", evaluate_fn, strategy=lambda t: FN, examples=4000 if quick else 200000))
     return st_
